@@ -63,6 +63,9 @@ class _Plot(Contract):
             c.oblige("post", "nothing drawn through pyplot's current axes (the supplied axes need not be current)",
                      stray is None or not any(stray.fields["calls"].get(k)[0] in ("plot", "scatter", "errorbar", "semilogy", "step", "fill_between")
                                               for k in range(stray.fields["calls"].length)))
+        if len(axs) == 1:
+            c.oblige("post", "the diagram's axes start empty (not the axes of a figure that an earlier call may have left open)",
+                     not axs[0].fields.get("prior_artists", False))
         return axs[0] if len(axs) == 1 else None
 
     def markers(self, c, ax, Fn, Lab, hide, yfn, what):
